@@ -246,8 +246,13 @@ def w_encoded(task):
             got = "".join(s[i] for i in p.crc_pos)
             want = p.expect(s)
             if got != want:
-                acc.violation(f"{name}:check_value_differs_from_reference", {**case, "bits": s, "got": got, "want": want},
-                              "the emitted check field differs from the harness's GF(2) computation over the emitted bits")
+                if name.endswith("confirmed_last") and s[-32:] == "0" * 32:
+                    acc.violation(f"{name}:zero_crc32_field_left_out_of_crc9", {**case, "bits": s, "got": got, "want": want},
+                                  "last block with CRC-32 field 0: the emitted CRC-9 does not cover the 32 zero bits (differs from the "
+                                  "harness's CRC-9 over data||crc32||dbsn)")
+                else:
+                    acc.violation(f"{name}:check_value_differs_from_reference", {**case, "bits": s, "got": got, "want": want},
+                                  "the emitted check field differs from the harness's GF(2) computation over the emitted bits")
                 out = "value_differs"
             if name.startswith("slc_"):
                 # the only on-air path of a short LC: BPTC(68,28) encode, de-interleave, parse
@@ -415,7 +420,7 @@ for _rn, (_cls, _T, _L) in c03.RATES.items():
 
 # which field's bits may be re-chosen to reach a wanted check value
 FREE_FIELD = {"pi_header": "data", "slc_activity_update": "ts2_address", "slc_null": None}
-CHECK_TARGETS_QUICK = ["plain", "first_only", "last_only", "zero"]
+CHECK_TARGETS_QUICK = ["plain", "first_only", "zero"]
 CHECK_TARGETS_THOROUGH = ["plain", "first_only", "last_only", "zero", "first_and_last", "weight3", "all_ones"]
 
 
@@ -514,6 +519,10 @@ def w_sweep(task):
     base_list = list(base)
     cnt = 0
     out_hist = {}
+    try:
+        clean_accepted = bool(p.indicator(kind.parse(bitarray(base))))
+    except Exception:
+        clean_accepted = False
     for pat in patterns():
         cnt += 1
         s = base_list[:]
@@ -544,7 +553,10 @@ def w_sweep(task):
                 else:
                     field_zero = all(cs[i] == "0" for i in crc_pos)
                     case = {"kind": name, "base": blabel, "bits": base, "flipped": list(pat), "received": cs}
-                    if field_zero:
+                    if not clean_accepted:
+                        acc.violation("corrupted_pdu_accepted_while_uncorrupted_pdu_is_rejected", case,
+                                      "the library's own un-corrupted PDU is reported invalid, yet this corruption of it is accepted with altered field values")
+                    elif field_zero:
                         acc.violation("zero_check_field_accepted_with_altered_fields", case,
                                       "a corruption that leaves the received check field all-zero is accepted (indicator True) with altered field values")
                     elif is_last and cs[-32:] == "0" * 32:
@@ -568,10 +580,11 @@ def w_sweep(task):
     return acc, (name, blabel, out_hist.get("clean_ok", 0)) if mode == "none" else None
 
 
-def corruption_family(rep, nw, sub, names, labels, w_burst, k, note):
-    s = rep.sub(sub, f"per kind {names}: fixed base PDUs (check-field patterns {labels}) x the error-free case, ALL bursts of length <= "
-                     f"{w_burst} at every position and ALL patterns of weight <= {k} that are not such bursts, over all PDU bits incl. "
-                     f"the check field. {note} Non-trivial: pattern whose polynomial is not a multiple of the generator.")
+def corruption_family(rep, nw, sub, names, labels, burst_w, k, note):
+    bw = {l: burst_w(l) for l in labels}
+    s = rep.sub(sub, f"per kind {names}: fixed base PDUs (check-field patterns -> max burst length: {bw}) x the error-free case, ALL "
+                     f"bursts up to that length at every position and ALL patterns of weight <= {k} that are not such bursts, over all "
+                     f"PDU bits incl. the check field. {note} Non-trivial: pattern whose polynomial is not a multiple of the generator.")
     tasks = []
     decl = 0
     bases_used = {}
@@ -581,6 +594,7 @@ def corruption_family(rep, nw, sub, names, labels, w_burst, k, note):
         bases_used[name] = [b[0] for b in bl]
         n = p.kind.length
         for blabel, bits in bl:
+            w_burst = bw[blabel]
             SWEEP[(name, blabel)] = bits
             tasks.append((name, blabel, "none", 0, 0, w_burst, k))
             tasks += [(name, blabel, "burst", lo, hi, w_burst, k) for lo, hi in par.chunks(n, n)]
@@ -681,3 +695,237 @@ def w_hrnp_corrupt(task):
                 out = "decode_error"
             acc.case(nontrivial=True, calls=1, outcome=out, sample=case if (wi == 0 and x == 1 and bi == 0) else None)
     return acc
+
+
+# =====================================================================================
+def run(only=None):
+    rep = Report("C04")
+    tier = rep.tier
+    thorough = rep.thorough()
+    rep.explanation = (
+        "Complete enumeration on the real parsers: every received slot-type / EMB word; every library-serialised PDU of the "
+        "C03 field spaces that carries a check field; every error pattern of the stated weight/burst bounds on fixed base PDUs. "
+        "state = one enumerated word / PDU / (base, error pattern); transition = one real library call (from_bits / from_bytes, "
+        "as_bits); every case is an implementation execution."
+    )
+    rep.assumptions = [
+        "reference codes: Golay(20,8,7) and QR(16,7,6) as extended cyclic codes (mc/oracle/gf2.py); CRC-8 x^8+x^2+x+1, CRC-9 "
+        "x^9+x^6+x^4+x^3+1, CRC-CCITT x^16+x^12+x^5+1 with inversion and the B.3.12 masks, evaluated by integer polynomial division",
+        "PDU bit -> codeword exponent maps transcribed in this file (short LC check bits LSB first as the library's BPTC(68,28) "
+        "de-interleaver presents them; CRC-9 over data||crc32||dbsn, field LSB first)",
+        "a parse that raises any exception on a corrupted PDU counts as 'decode error'",
+        "HRNP: the ones-complement sum guarantees single-bit and single aligned 16-bit word errors only (0x0000<->0xFFFF aliasing excluded)",
+    ]
+    nw = env.workers()
+    PROT.clear()
+    PROT.update(protected_kinds())
+    CODE["golay"] = gf2.codeword_set("golay_20_8_7")
+    CODE["qr"] = gf2.codeword_set("qr_16_7_6")
+    assert len(CODE["golay"]) == 256 and len(CODE["qr"]) == 128
+
+    def want(name):
+        return only is None or name in only
+
+    # ---- 1 ------------------------------------------------------------------------------------
+    if want("slot_type_all_words"):
+        exp = sorted(w for w in range(0, 1 << 20, 1 << 12) if w not in CODE["golay"])
+        fec_words(rep, nw, "slot_type_all_words", 20, 12, w_slot_words, exp)
+    if want("emb_all_words"):
+        exp = sorted(w for w in range(0, 1 << 16, 1 << 9) if w not in CODE["qr"])
+        fec_words(rep, nw, "emb_all_words", 16, 9, w_emb_words, exp)
+
+    # ---- 2 ------------------------------------------------------------------------------------
+    if want("encoded_then_parsed_ok"):
+        s = rep.sub("encoded_then_parsed_ok",
+                    "slot type: all 16x16 (colour code, data type) pairs incl. the 13 members of DataTypes; EMB: all 128 (cc, PI, LCSS); "
+                    "every field assignment of the C03 space of the 14 CRC-protected kinds (5 data headers, PI header, 2 short LC, "
+                    "3 rates x {confirmed, confirmed last}); HRNP: 25 packets x header-field alphabets; each a distinct PDU")
+        decl = 0
+        for cc in range(16):
+            for dt in DataTypes:
+                case = {"kind": "slot_type", "colour_code": cc, "data_type": dt.name}
+                try:
+                    b = SlotType(colour_code=cc, data_type=dt).as_bits()
+                    w = ba2int(b)
+                    back = SlotType.from_bits(b)
+                    if not back.fec_parity_ok:
+                        s.violation("slot_type:library_encoded_pdu_reports_check_failed", {**case, "bits": b.to01()})
+                    if w not in CODE["golay"] or (w >> 12) != (cc << 4 | dt.value):
+                        s.violation("slot_type:check_value_differs_from_reference", {**case, "bits": b.to01()},
+                                    "emitted slot type is not the Golay codeword of cc||dt")
+                except Exception as e:
+                    s.violation("slot_type:exception:" + exc_sig(e), case, repr(e))
+                s.case(nontrivial=True, calls=3, outcome=("slot_type", "ok"), sample=case if decl == 0 else None)
+                decl += 1
+        for cc in range(16):
+            for pi in range(2):
+                for lc in range(4):
+                    case = {"kind": "emb", "colour_code": cc, "pi": pi, "lcss": lc}
+                    try:
+                        objs = [EmbeddedSignalling(colour_code=cc, preemption_and_power_control_indicator=pi, link_control_start_stop=lc),
+                                EmbeddedSignalling(colour_code=cc, preemption_and_power_control_indicator=pi, link_control_start_stop=LCSS(lc))]
+                        for o in objs:
+                            b = o.as_bits()
+                            w = ba2int(b)
+                            if not EmbeddedSignalling.from_bits(b).emb_parity_ok:
+                                s.violation("emb:library_encoded_pdu_reports_check_failed", {**case, "bits": b.to01()})
+                            if w not in CODE["qr"] or (w >> 9) != (cc << 3 | pi << 2 | lc):
+                                s.violation("emb:check_value_differs_from_reference", {**case, "bits": b.to01()},
+                                            "emitted EMB is not the QR codeword of cc||pi||lcss")
+                    except Exception as e:
+                        s.violation("emb:exception:" + exc_sig(e), case, repr(e))
+                    s.case(nontrivial=True, calls=6, outcome=("emb", "ok"))
+                    decl += 1
+        tasks = []
+        sizes = {}
+        for name, p in PROT.items():
+            ENC_CASES[name] = c03.kind_cases(p.kind, tier)
+            n = len(ENC_CASES[name])
+            sizes[name] = n
+            decl += n
+            tasks += [(name, lo, hi) for lo, hi in par.chunks(n, max(1, min(32, n // 200)))]
+        for acc in par.pmap(w_encoded, tasks, nw):
+            s.merge(acc)
+        cat, hc = hrnp_cases()
+        for ci, hdr in hc:
+            case = {"kind": "hrnp", "packet": cat[ci][0], "header": hdr}
+            try:
+                raw = hrnp_build(cat, ci, hdr).as_bytes()
+                back = HRNP.from_bytes(raw)
+                if not back.checksum_correct:
+                    s.violation("hrnp:library_encoded_pdu_reports_check_failed", {**case, "bytes": raw.hex()},
+                                "HRNP packet serialised by the library parses back with checksum_correct False")
+                if int.from_bytes(raw[10:12], "big") != ones_complement_checksum(raw):
+                    s.violation("hrnp:check_value_differs_from_reference", {**case, "bytes": raw.hex()},
+                                "emitted checksum differs from the harness's ones-complement sum over the emitted bytes")
+                if back.as_bytes() != raw:
+                    s.violation("hrnp:reserialisation_differs", {**case, "bytes": raw.hex()})
+            except Exception as e:
+                s.violation("hrnp:exception:" + exc_sig(e), case, repr(e))
+            s.case(nontrivial=True, calls=3, outcome=("hrnp", "ok"))
+            decl += 1
+        sizes["hrnp"] = len(hc)
+        s.declared = decl
+        s.extra["cases_per_kind"] = sizes
+        s.done()
+        rep.log(f"encoded_then_parsed_ok: {decl} cases, {len(s.viol)} violation signatures, {s.wall}s")
+
+    # ---- 3 ------------------------------------------------------------------------------------
+    labels = CHECK_TARGETS_THOROUGH if thorough else CHECK_TARGETS_QUICK
+    k = 3 if thorough else 2
+    if want("corruption_data_header"):
+        corruption_family(rep, nw, "corruption_data_header",
+                          ["dh_confirmed", "dh_unconfirmed", "dh_response", "dh_short_data_defined", "dh_udt"], labels,
+                          (lambda l: 16 if l in ("plain", "first_only") else 10) if thorough else (lambda l: 9), k,
+                          "CRC-CCITT, 96 bits.")
+    if want("corruption_pi_header"):
+        corruption_family(rep, nw, "corruption_pi_header", ["pi_header"], labels,
+                          (lambda l: 16 if l in ("plain", "first_only") else 10) if thorough else (lambda l: 10), k,
+                          "CRC-CCITT, 96 bits.")
+    if want("corruption_short_lc"):
+        corruption_family(rep, nw, "corruption_short_lc", ["slc_null", "slc_activity_update"], CHECK_TARGETS_THOROUGH,
+                          lambda l: 8, 3, "CRC-8, 36 bits (identical in both tiers).")
+    if want("corruption_rate_blocks"):
+        corruption_family(rep, nw, "corruption_rate_blocks",
+                          [f"{rn}_{v}" for rn in c03.RATES for v in ("confirmed", "confirmed_last")],
+                          labels if not thorough else ["plain", "first_only", "last_only", "zero", "weight3"],
+                          lambda l: 9, k, "CRC-9, 96/144/192 bits.")
+
+    # ---- 4 ------------------------------------------------------------------------------------
+    if want("crc9_last_block_crc32_single_bit"):
+        s = rep.sub("crc9_last_block_crc32_single_bit",
+                    "confirmed last blocks of the 3 rates x dbsn in {0, 127} x all 2^9 values of the low-order 9 data bits x all 32 "
+                    "weight-1 CRC-32 field values: flip the one set CRC-32 bit (a single-bit error); must be detected. Non-trivial: "
+                    "block whose own CRC-9 is non-zero")
+        tasks = []
+        for rn in c03.RATES:
+            for dbsn in (0, 127):
+                tasks += [(rn, dbsn, lo, hi) for lo, hi in par.chunks(512, 8)]
+        s.declared = 3 * 2 * 512 * 32
+        for acc in par.pmap(w_crc32_zero, tasks, nw):
+            s.merge(acc)
+        s.done()
+        rep.log(f"crc9_last_block_crc32_single_bit: {s.n} cases, {len(s.viol)} violation signatures, {s.wall}s")
+
+    # ---- 5 ------------------------------------------------------------------------------------
+    if want("hrnp_corruption"):
+        s = rep.sub("hrnp_corruption",
+                    "25 library-serialised HRNP packets x every aligned 16-bit word x %d xor patterns (all of weight 1 and 2, 0xFFFF, "
+                    "0x00FF, 0xFF00, 0x5555, 0xAAAA, 0x0F0F): must raise, report checksum_correct False or keep all fields; "
+                    "0x0000<->0xFFFF word aliasing and the padding byte excluded by rule" % len(WORD_XORS))
+        cat, _ = hrnp_cases()
+        base_hdr = {n: HRNP_HEADER_ALPHA[n][0] for n in HRNP_HEADER_ALPHA}
+        HRNP_BASES.clear()
+        tasks = []
+        decl = 0
+        for ci in range(len(cat)):
+            raw = hrnp_build(cat, ci, dict(base_hdr, packet_number=ci + 1)).as_bytes()
+            HRNP_BASES.append((cat[ci][0], raw))
+            nwords = (len(raw) + 1) // 2
+            tasks += [(ci, lo, hi) for lo, hi in par.chunks(nwords, 4)]
+            decl += nwords * len(WORD_XORS)
+        s.declared = decl
+        for acc in par.pmap(w_hrnp_corrupt, tasks, nw):
+            s.merge(acc)
+        s.done()
+        rep.log(f"hrnp_corruption: {decl} cases, {len(s.viol)} violation signatures, {s.wall}s")
+
+    rep.bounds = {
+        "fec_words": "all 2^20 slot-type and all 2^16 EMB words",
+        "encoded": "C03 field spaces of the 14 protected kinds (+ slot type 208, EMB 128, HRNP 911)",
+        "crc16_sweeps": ("weight <= 3 on 7 bases per kind; bursts <= 16 at every position on 2 bases per kind, <= 10 on the others"
+                         if thorough else "weight <= 2 on 3 bases per kind, bursts <= 9 (data headers) / <= 10 (PI header) at every position (longer bursts, up to 16, only in the thorough tier)"),
+        "crc9_sweeps": "weight <= %d and all bursts <= 9 on %d bases per kind" % (k, 5 if thorough else 3),
+        "crc8_sweeps": "weight <= 3 and all bursts <= 8 on up to 7 bases per kind",
+        "hrnp": "single-bit and single aligned word errors (159 xor patterns per word)",
+        "not_covered": "error patterns of weight > 3 that are not short bursts; PDUs other than the fixed bases in the fault sweeps",
+    }
+    return rep.finish()
+
+
+def replay(doc):
+    PROT.clear()
+    PROT.update(protected_kinds())
+    CODE["golay"] = gf2.codeword_set("golay_20_8_7")
+    CODE["qr"] = gf2.codeword_set("qr_16_7_6")
+    still = 0
+    for case in doc.get("cases", []):
+        if "word" in case:
+            w = case["word"]
+            if len(w) == 20:
+                o = SlotType.from_bits(bitarray(w))
+                ok, member = o.fec_parity_ok, int(w, 2) in CODE["golay"]
+            else:
+                o = EmbeddedSignalling.from_bits(bitarray(w))
+                ok, member = o.emb_parity_ok, int(w, 2) in CODE["qr"]
+            print(f"word {w}: indicator={ok} codeword={member} reserialised={o.as_bits().to01()}")
+            still |= int(bool(ok) != member)
+        elif "received" in case and "kind" in case:
+            p = PROT[case["kind"]]
+            try:
+                o = p.kind.parse(bitarray(case["received"]))
+                ok = bool(p.indicator(o))
+                same = o.as_bits().to01() == case["bits"]
+                print(f"{case['kind']} flipped={case['flipped']}: indicator={ok} same_fields={same} repr={o!r}")
+                still |= int(ok and not same)
+            except Exception as e:
+                print(f"{case['kind']} flipped={case['flipped']}: raises {e!r}")
+        elif "kind" in case and "values" in case and case["kind"] in PROT:
+            p = PROT[case["kind"]]
+            vals = {k: (int(v, 16) if isinstance(v, str) else v) for k, v in case["values"].items()}
+            b = p.kind.build(vals).as_bits()
+            o = p.kind.parse(b)
+            print(f"{case['kind']} {vals}: bits={b.to01()} indicator={p.indicator(o)}")
+            still |= int(not p.indicator(o))
+        elif "bytes" in case:
+            raw = bytes.fromhex(case.get("received", case["bytes"]))
+            try:
+                o = HRNP.from_bytes(raw)
+                print(f"hrnp {raw.hex()}: checksum_correct={o.checksum_correct}")
+                if "received" in case and o.checksum_correct:
+                    still = 1
+            except Exception as e:
+                print(f"hrnp {raw.hex()}: raises {e!r}")
+        else:
+            print("unrecognised case", case)
+    return still
